@@ -18,6 +18,10 @@ if r.returncode != 0:
         sh("git -C /repo checkout -- .")
         sys.exit(3)
 res = {}
+import shutil
+bk = "/verif/work/evidence_backup"
+shutil.rmtree(bk, ignore_errors=True)
+shutil.copytree("/verif/evidence", bk)      # evidence committed under /verif comes from the unchanged tree only
 try:
     for c in checks:
         t = time.time()
@@ -28,4 +32,6 @@ try:
 finally:
     sh("git -C /repo checkout -- .")
     sh("rm -rf /verif/replay/*")
+    shutil.rmtree("/verif/evidence", ignore_errors=True)
+    shutil.copytree(bk, "/verif/evidence")
 print("RESULT", os.path.basename(cand), {c: res[c]["rc"] for c in res})
